@@ -208,8 +208,8 @@ class SchemaValidationContext:
     ) -> None:
         default_input = input_value.default
 
-        if not default_input:
-            return
+        if not default_input or not is_input_type(input_value.type):
+            return  # a non-input type has already been reported
 
         errors: list[tuple[GraphQLError, list[str | int]]] = []
         validate_default_input(
